@@ -1,11 +1,12 @@
 #!/bin/bash
 # usage: tools/sweep.sh <tier> <seed>... — run every claimed check for each seed, one line per run.
+# SWEEP_IDS="C11 C12" restricts the properties.
 # Meant for unchanged-tree sweeps (`vp run -- tools/sweep.sh quick 1 2 3 4 5`).
 cd "$(dirname "$0")/.."
 mkdir -p .work
 tier=$1; shift
 [ -x .work/bin/extract ] || ./setup > .work/setup.log 2>&1
-ids=$(python3 -c "import json;print(' '.join(c['property_id'] for c in json.load(open('MANIFEST.json'))['checks']))")
+ids=${SWEEP_IDS:-$(python3 -c "import json;print(' '.join(c['property_id'] for c in json.load(open('MANIFEST.json'))['checks']))")}
 for seed in "$@"; do
   for id in $ids; do
     t0=$(date +%s)
